@@ -222,7 +222,7 @@ pub fn concretize_repls(t: &str, pool_sel: &[u16], abs: &[AbsRepl], huge: bool) 
     pool.push(0);
   }
   pool.sort_unstable();
-  abs
+  let mut out: Vec<Repl> = abs
     .iter()
     .map(|r| {
       let (mut start, mut end);
@@ -254,10 +254,13 @@ pub fn concretize_repls(t: &str, pool_sel: &[u16], abs: &[AbsRepl], huge: bool) 
           }
         };
       }
+      let end = end.max(start);
+      // now and then the content is exactly the text it replaces (a no-op in the text, not in the map)
+      let same_text = r.b % 13 == 4 && start < end && (end as usize) <= t.len();
       Repl {
         start,
-        end: end.max(start),
-        content: r.content.clone(),
+        end,
+        content: if same_text { t[start as usize..end as usize].to_string() } else { r.content.clone() },
         name: match r.name {
           0 => Some("n1".to_string()),
           1 => Some("n2".to_string()),
@@ -266,7 +269,14 @@ pub fn concretize_repls(t: &str, pool_sel: &[u16], abs: &[AbsRepl], huge: bool) 
         enforce: r.enforce,
       }
     })
-    .collect()
+    .collect();
+  // now and then a call is repeated verbatim right away
+  for i in 1..out.len() {
+    if abs[i].a % 17 == 3 {
+      out[i] = out[i - 1].clone();
+    }
+  }
+  out
 }
 
 pub fn repls_for(cfg: GenCfg, max: usize) -> impl Strategy<Value = (Vec<u16>, Vec<AbsRepl>)> {
@@ -758,8 +768,15 @@ pub fn tree(cfg: GenCfg) -> BoxedStrategy<Spec> {
   l.prop_recursive(cfg.depth, 16, cfg.max_children as u32, move |inner| {
     let mut alts: Vec<(u32, BoxedStrategy<Spec>)> = vec![(
       4,
-      (0u8..5u8, vec(inner.clone(), 0..=cfg.max_children))
-        .prop_map(|(how, children)| Spec::Concat { how, children })
+      (0u8..5u8, vec(inner.clone(), 0..=cfg.max_children), 0u8..12u8)
+        .prop_map(|(how, mut children, twin)| {
+          // now and then two children are the very same source (byte-identical text, same names)
+          if twin == 0 && !children.is_empty() {
+            let c = children[0].clone();
+            children.push(c);
+          }
+          Spec::Concat { how, children }
+        })
         .boxed(),
     )];
     if cfg.replace {
